@@ -23,43 +23,120 @@ Section C01.
   Proof. exact path_iff_shape. Qed.
 
   (* accepted iff the names spell a documented path and every step is valid
-     (for both image orders when a validation step triggers the second round) *)
+     (for both image orders when a validation step of THIS pipeline triggers the
+     second round); nothing of the machine's past is in the condition *)
   Theorem C01_check_accepts_iff : forall m p, clean m ->
     (exists m', check_conf check_table step_ok m p = Accepted m') <->
     (spells_documented_path p
      /\ forallb (fun s => step_ok s false) p = true
-     /\ (m_rdm m || has_kind Val p = true -> forallb (fun s => step_ok s true) p = true)).
+     /\ (has_kind Val p = true -> forallb (fun s => step_ok s true) p = true)).
   Proof. exact (check_accepts_iff check_table step_ok C01_check_table_wf). Qed.
 
-  (* after a successful check the machine is back in `begin` with no transition left *)
+  (* after a successful check the machine is back in `begin` with no transition left,
+     and its right-disparity request is the one of the checked pipeline *)
   Theorem C01_check_restores : forall m p, clean m ->
-    if accept_b step_ok (m_rdm m) p
+    if accept_b step_ok p
     then check_conf check_table step_ok m p
-         = Accepted (mkM Begin [] (m_rdm m || has_kind Val p) (m_scale m))
+         = Accepted (mkM Begin [] (has_kind Val p) (m_scale m))
     else exists m', check_conf check_table step_ok m p = Rejected m'.
   Proof. exact (check_conf_spec check_table step_ok C01_check_table_wf). Qed.
 
   (* every documented path runs without sequencing error, for every number of
-     scales n; its callback trace is exactly the expected one (each step once
-     per processed scale, configured order, left then right), and the machine
-     is restored *)
+     scales n, on every clean machine (whatever it checked or ran before); its
+     callback trace is exactly the expected one (each step once per processed
+     scale, configured order, left then -- iff THIS pipeline has a validation
+     step -- right), and the machine is restored *)
   Theorem C01_run_trace_exact : forall m p n d, clean m ->
     path_ok Begin p = Some d ->
     (n >= 1)%nat -> ((n > 1)%nat -> has_kind Msc p = true) ->
     run run_table m p n =
-      RunOk (mkM Begin [] (m_rdm m || has_kind Val p) 0)
-            (expected_trace p n (m_rdm m || has_kind Val p)).
+      RunOk (mkM Begin [] (has_kind Val p) 0)
+            (expected_trace p n (has_kind Val p)).
   Proof. exact (run_spec run_table C01_run_table_wf). Qed.
 
-  (* every history of check/run calls of one accepted pipeline on one machine:
-     each call returns what the first one returned *)
-  Theorem C01_history_idempotent : forall n p d h m,
-    clean m -> (m_rdm m = true -> has_kind Val p = true) ->
-    path_ok Begin p = Some d -> accept_b step_ok (has_kind Val p) p = true ->
+  (* EVERY history of check/run calls of ARBITRARY pipelines (each call: any
+     pipeline -- accepted or not --, any number of scales) on one machine object
+     that starts clean: every call returns exactly what the same call returns on
+     a machine that has never been used, as long as the EARLIER calls returned
+     successfully (accepted / ran).  The guard is the word "successfully" of the
+     property: a rejected check or a failed run raises in the middle of the
+     transitions bookkeeping and leaves the object dirty
+     (C01_history_guard_needed shows the guard cannot be dropped).  The first
+     unsuccessful call itself is still covered (it is the last of its prefix). *)
+  Theorem C01_history_any_pipelines : forall h m, clean m ->
+    earlier_successful check_table run_table step_ok h = true ->
+    ghistory check_table run_table step_ok m h
+    = map (fresh_outcome check_table run_table step_ok) h.
+  Proof. exact (ghistory_fresh check_table run_table step_ok C01_check_table_wf C01_run_table_wf). Qed.
+
+  (* ... and what a never-used machine returns: accepted iff documented path and
+     valid steps; a documented path runs with the expected trace *)
+  Theorem C01_fresh_check : forall p,
+    fresh_outcome check_table run_table step_ok (GCheck p)
+    = if accept_b step_ok p then OAccepted else ORejected.
+  Proof. exact (fresh_check check_table run_table step_ok C01_check_table_wf). Qed.
+
+  Theorem C01_fresh_run : forall p n d, path_ok Begin p = Some d ->
+    (n >= 1)%nat -> ((n > 1)%nat -> has_kind Msc p = true) ->
+    fresh_outcome check_table run_table step_ok (GRun p n)
+    = ORan (expected_trace p n (has_kind Val p)).
+  Proof. exact (fresh_run check_table run_table step_ok C01_run_table_wf). Qed.
+
+  (* after a history of successful calls the machine is in `begin` with no
+     transition left *)
+  Theorem C01_history_leaves_clean : forall h m, clean m ->
+    forallb (fun c => successful (fresh_outcome check_table run_table step_ok c)) h = true ->
+    clean (gfinal check_table run_table step_ok m h).
+  Proof. exact (gfinal_clean check_table run_table step_ok C01_check_table_wf C01_run_table_wf). Qed.
+
+  (* corollary (the last sentence of C01): every history of check/run calls of
+     one accepted pipeline on one clean machine, whatever that machine did
+     before: each call returns what the first one returned *)
+  Corollary C01_history_idempotent : forall n p d h m,
+    clean m ->
+    path_ok Begin p = Some d -> accept_b step_ok p = true ->
     (n >= 1)%nat -> ((n > 1)%nat -> has_kind Msc p = true) ->
     history check_table run_table step_ok n p m h = map (expected_outcome n p) h.
   Proof. exact (history_spec check_table run_table step_ok C01_check_table_wf C01_run_table_wf). Qed.
 End C01.
+
+(* The guard of C01_history_any_pipelines is needed: after a REJECTED check
+   ([matching_cost; filter]: MachineError raised while the check transitions are
+   registered and the state is cost_volume) the accepted pipeline
+   [matching_cost; disparity] is rejected on the same object. *)
+Definition all_ok : step -> bool -> bool := fun _ _ => true.
+Definition ex_bad : list step := [mkStep 0 (Some MC); mkStep 1 (Some Flt)].
+Definition ex_good : list step := [mkStep 0 (Some MC); mkStep 1 (Some Dsp)].
+Theorem C01_history_guard_needed :
+  clean machine0 /\
+  ghistory check_table run_table all_ok machine0 [GCheck ex_bad; GCheck ex_good] = [ORejected; ORejected] /\
+  map (fresh_outcome check_table run_table all_ok) [GCheck ex_bad; GCheck ex_good] = [ORejected; OAccepted].
+Proof. vm_compute. repeat split. Qed.
+
+(* Regression witness of the repaired defect (fix: "a configuration check starts
+   from a clean machine ... run_prepare no longer keeps the right-disparity
+   request of an earlier pipeline").  On the model of the code BEFORE the fix
+   (check_conf_before / run_before keep m_rdm), the history
+     check A = [matching_cost; disparity; validation]   then
+     run   B = [matching_cost; disparity; filter]        on the same machine
+   executes every step of B on the right data too although B has no validation
+   step; on the model of the current code the same history gives the trace of a
+   fresh machine (left only). *)
+Definition ex_A : list step := [mkStep 0 (Some MC); mkStep 1 (Some Dsp); mkStep 2 (Some Val)].
+Definition ex_B : list step := [mkStep 0 (Some MC); mkStep 1 (Some Dsp); mkStep 2 (Some Flt)].
+Definition right_ev (e : ev) : bool := match e with Ev _ _ _ r => r end.
+Theorem C01_rdm_leak_before_fix :
+  has_kind Val ex_B = false /\
+  (exists mA, check_conf_before check_table all_ok machine0 ex_A = Accepted mA /\
+     exists mB tr, run_before run_table mA ex_B 1 = RunOk mB tr /\
+       filter right_ev tr = [Ev 0 MC 0 true; Ev 1 Dsp 0 true; Ev 2 Flt 0 true]) /\
+  (exists mA, check_conf check_table all_ok machine0 ex_A = Accepted mA /\
+     exists mB tr, run run_table mA ex_B 1 = RunOk mB tr /\ filter right_ev tr = []).
+Proof.
+  split; [reflexivity|]. split.
+  - eexists; split; [vm_compute; reflexivity|]. eexists; eexists; split; vm_compute; reflexivity.
+  - eexists; split; [vm_compute; reflexivity|]. eexists; eexists; split; vm_compute; reflexivity.
+Qed.
 
 (* Non-vacuity: a concrete pipeline with repeated, suffixed steps and three scales. *)
 Definition ex_pipeline : list step :=
@@ -76,4 +153,10 @@ Print Assumptions C01_path_iff_shape.
 Print Assumptions C01_check_accepts_iff.
 Print Assumptions C01_check_restores.
 Print Assumptions C01_run_trace_exact.
+Print Assumptions C01_history_any_pipelines.
+Print Assumptions C01_fresh_check.
+Print Assumptions C01_fresh_run.
+Print Assumptions C01_history_leaves_clean.
 Print Assumptions C01_history_idempotent.
+Print Assumptions C01_history_guard_needed.
+Print Assumptions C01_rdm_leak_before_fix.
